@@ -421,6 +421,8 @@ def run(ctx):
     buffer_rules(ctx, "R20.c", "R20.d", "R20.f")
     forwarders(ctx, "R20.g")
     create_sets_lang(ctx, "R20.g")
+    api_effects(ctx, "R20.j")
+    registry_panic_polarity(ctx, "R20.j")
     from . import r_state as RS
     RS.memo_coherence(ctx, "R20.h")
     # scratch buffers (thread-locals shared by all ids, per-store scratch) must not carry content from one search into the
@@ -434,3 +436,184 @@ def run(ctx):
                 "point other than the search runner changes buffer contents; R20.f: the buffer of id X receives the hits of "
                 "store X for the query parameter tokenised in store X's language; R20.g: add_record / set_limit / "
                 "highlight_with / create_store forward their parameters positionally to the addressed store; R20.e: for each of the seven `lang` cfgs the WASM exports call the like-named core function with their parameters in order, get_lang builds the cfg's language, get_result_ids reads the addressed buffer.")
+
+
+# ---------------------------------------------------------------------------------------------------------------------
+# what an API function must DO (round 10: the registry functions of lib.rs are not exercised by the repository's tests,
+# so a forwarder that silently stops forwarding passes the suite)
+
+def _consumer_site(ctx, cb):
+    """(parent body, block, call terminator) of the call a closure literal is handed to"""
+    c = ctx.model.creation.get(cb.id)
+    if c is None:
+        return None
+    pb = c[0]
+    psy = ctx.sym(pb)
+    for cbi, t in pb.calls():
+        if any(U.closure_body(ctx, psy.operand(a)) is cb for a in t["args"]):
+            return pb, cbi, t
+    return None
+
+
+def _always_calls_param(ctx, g, k, depth=0):
+    """function g calls its k-th parameter (a closure) on every path that returns"""
+    if depth > 3:
+        return False
+    for body in [g] + U.nested_closures(ctx, g):
+        sy = ctx.sym(body)
+        for bi, t in body.calls():
+            if not U.callee_is(t, "FnOnce::call_once", "FnMut::call_mut", "Fn::call") or not t["args"]:
+                continue
+            f = S.strip_refs(sy.operand(t["args"][0]))
+            o = ctx.model.origin(body, f)
+            if o == ("param", g.id, k) and always_runs(ctx, body, bi, g, depth + 1):
+                return True
+    return False
+
+
+def always_runs(ctx, body, block, root=None, depth=0):
+    """every call of the enclosing API function that returns has executed `block` of `body` (body = the function or a closure
+    nested in it): the block lies on every path of its body, and a closure body is handed — on every path of ITS parent —
+    to `LocalKey::with` or to a function of the crate that calls that parameter on every path"""
+    if depth > 5:
+        return False
+    cfg = ctx.cfg(body)
+    if not cfg.every_path_passes(0, [block]):
+        return False
+    if body.kind != "closure":
+        return True
+    site = _consumer_site(ctx, body)
+    if site is None:
+        return False
+    pb, cbi, t = site
+    tgt = t.get("resolved") or t.get("callee") or ""
+    if ctx.facts.canon_is(tgt, "std::thread::LocalKey::with"):
+        runs = True
+    else:
+        gs = [g for g in ctx.facts.fns() if g.id == tgt or g.cn == (t.get("cn") or "")]
+        gs = [g for g in gs if g.kind in ("fn", "method")]
+        k = None
+        psy = ctx.sym(pb)
+        for ai, a in enumerate(t["args"]):
+            if U.closure_body(ctx, psy.operand(a)) is body:
+                k = ai + 1
+        runs = bool(gs) and k is not None and _always_calls_param(ctx, gs[0], k, depth + 1)
+    return runs and always_runs(ctx, pb, cbi, root, depth + 1)
+
+
+def api_effects(ctx, rule, which=("add", "markers", "limit")):
+    """Each forwarding API function performs its effect on every call: add_record adds the record, highlight_with hands the
+    markers to the store, set_limit stores the limit — not only `if it does it, it does it right` (forwarders), but that it
+    does it at all, on every path"""
+    facts = ctx.facts
+    found = {"add": [], "markers": [], "limit": []}
+    for b in facts.fns():
+        root = ctx.cg.root_of.get(b.id)
+        rb = facts.bodies.get(root)
+        if rb is None or not rb.exported or rb.kind != "fn" or b.id.startswith("store::") or rb.id.startswith("store::"):
+            continue
+        sy = ctx.sym(b)
+        for bi, t in b.calls():
+            if (t.get("rcn") or "").endswith("Store::add"):
+                found["add"].append((rb, b, bi, t))
+            if (t.get("rcn") or "").endswith("Store::highlight_with"):
+                found["markers"].append((rb, b, bi, t))
+        for bi, si, st in b.iter_stmts():
+            if st["k"] == "assign" and st["place"]["p"] and not b.blocks[bi]["cleanup"]:
+                pl = sy.dest(st["place"])
+                if pl[0] == "field" and pl[2] == "limit" and len(pl) > 3 and (pl[3] or "").endswith("::Store"):
+                    found["limit"].append((rb, b, bi, st))
+    what = {"add": ("an API function that adds a record to the addressed store (Store::add)", "records are never stored: every search is empty"),
+            "markers": ("an API function that hands the highlight markers to the store (Store::highlight_with)", "configured markers are ignored"),
+            "limit": ("an API function that stores the limit in the store", "set_limit has no effect")}
+    for k in which:
+        key = "api-effect:%s" % k
+        if not found[k]:
+            ctx.fail(rule, key, "-", "no exported function performs this effect any more: %s (fail closed)" % what[k][0], {"witness": what[k][1]})
+            continue
+        for rb, b, bi, node in found[k]:
+            if always_runs(ctx, b, bi, rb):
+                ctx.ok(rule, key + ":" + rb.id, where(b, bi, node), "%s performs it on every call (every path of the closure, which its "
+                       "consumer always runs)" % rb.id, nontrivial=True)
+            else:
+                ctx.fail(rule, key + ":" + rb.id, where(b, bi, node), "%s performs the effect only on some paths (%s)" % (rb.id, what[k][0]),
+                         {"witness": what[k][1] + " for some arguments"})
+
+
+def registry_panic_polarity(ctx, rule):
+    """The explicit panics of the registry functions are contract checks with the right polarity: a function that inserts an
+    id panics only when the id is already present, every other one only when it is absent.  (A negated test makes
+    create_store panic on every fresh id.)"""
+    facts = ctx.facts
+    n = 0
+    regs = set(ctx.model.registries())
+    for (b, bi0, t0, key_, cid) in ctx.model.tls_sites:
+        if key_ not in regs or cid is None:
+            continue
+        cb = facts.bodies[cid]
+        sy = ctx.sym(cb)
+        cfg = ctx.cfg(cb)
+        panics = [bi for bi, t in cb.calls() if (t.get("cn") or "").endswith(("begin_panic", "panic_fmt", "panic_display", "panicking::panic"))]
+        if not panics:
+            continue
+        inserts = any(m == "insert" and (t.get("cn") or "").startswith("std::collections::HashMap::")
+                      for (ebi, t, rk, m) in U.receiver_events(ctx, cb))
+        root = ctx.cg.root_of.get(b.id, b.id)
+        for pb in panics:
+            n += 1
+            k = "panic-polarity:%s:%s" % (root, key_.rsplit("::", 1)[-1])
+            verdict = None
+            for sb, bl in enumerate(cb.blocks):
+                t = bl["term"]
+                if not t or t["k"] != "switch" or bl["cleanup"] or not cfg.dominates(sb, pb):
+                    continue
+                e0 = S.strip_refs(sy.operand(t["discr"]))
+                if e0[0] == "discr":
+                    # `match map.get(&id) { Some(_) => .., None => .. }`: variant 1 = present
+                    inner = S.strip_refs(e0[1])
+                    if inner[0] == "call" and inner[1].endswith(("HashMap::get", "HashMap::get_mut", "HashMap::remove", "HashMap::insert")):
+                        some_t = [x for v_, x in t["targets"] if v_ == 1]
+                        none_t = [x for v_, x in t["targets"] if v_ == 0]
+                        rest = t.get("otherwise") if isinstance(t.get("otherwise"), int) else None
+                        some_t = some_t or ([rest] if rest is not None and none_t else [])
+                        none_t = none_t or ([rest] if rest is not None and some_t else [])
+                        if some_t and none_t:
+                            on_some = any(x == pb or cfg.path_exists(x, pb) for x in some_t)
+                            on_none = any(x == pb or cfg.path_exists(x, pb) for x in none_t)
+                            if on_some != on_none:
+                                verdict = on_some
+                    continue
+                bt = U.bool_switch_targets(t)
+                if not bt:
+                    continue
+                e = S.strip_refs(sy.operand(t["discr"]))
+                neg = False
+                while e[0] == "unop" and str(e[1]).lower() == "not":
+                    neg = not neg
+                    e = S.strip_refs(e[2])
+                # presence tests: contains_key(k) / get(k).is_some() / insert-or-remove result is_some(); is_none() is the negation
+                if e[0] == "call" and e[1].endswith(("Option::is_none", "Option::is_some")) and e[2]:
+                    inner = S.strip_refs(e[2][0])
+                    if inner[0] == "call" and inner[1].endswith(("HashMap::get", "HashMap::get_mut", "HashMap::remove", "HashMap::insert",
+                                                                 "HashMap::remove_entry", "HashMap::get_key_value")):
+                        if e[1].endswith("is_none"):
+                            neg = not neg
+                        e = ("call", "std::collections::HashMap::contains_key", inner[2])
+                if not (e[0] == "call" and e[1].endswith("HashMap::contains_key")):
+                    continue
+                on_true = cfg.path_exists(bt[1], pb) or bt[1] == pb
+                on_false = cfg.path_exists(bt[0], pb) or bt[0] == pb
+                if on_true == on_false:
+                    continue
+                panics_when_present = (on_true != neg)
+                verdict = panics_when_present
+            if verdict is None:
+                ctx.fail(rule, k, where(cb, pb), "%s: the panic is not guarded by a `contains_key` test of the registry (fail closed)" % root)
+            elif verdict == inserts:
+                ctx.ok(rule, k, where(cb, pb), "%s panics only when the id is %s" % (root, "already present" if inserts else "absent"),
+                       nontrivial=True)
+            else:
+                ctx.fail(rule, k, where(cb, pb), "%s panics when the id is %s: the contract check is inverted" %
+                         (root, "absent (every fresh id)" if inserts else "present (every valid id)"),
+                         {"witness": "create_store(1) on a fresh registry panics" if inserts else "destroy_store(1) after create_store(1) panics"})
+    ctx.floor(rule, "registry_contract_panics", n, 4)
